@@ -22,7 +22,7 @@ def _judge(run):
 
 P = ScenarioProperty(
     PROP,
-    {"min_generations": 2, "engines": ["SEA", "SEAWithCrossover", "GAStyleSEA", "SEAWithAdaptiveMutation", "MWEA", "DE", "SHADE", "CMA"], "hibernation": 0.2},
+    {"min_generations": 1, "pmut_low": True, "observe_intermittently": True, "engines": ["SEA", "SEAWithCrossover", "GAStyleSEA", "SEAWithAdaptiveMutation", "MWEA", "DE", "SHADE", "CMA"], "hibernation": 0.2},
     lambda sc: [C11Checker(sc)],
     _judge,
     quick=1600,
